@@ -59,7 +59,7 @@ def bounded_many(tier, seed, scripts, props):
             return None, f'CHECKER-ERROR bounded run {name} did not produce a result (rc={rc}): {err[-800:]}'
         total['evaluations'] += d['evaluations']
         total['distinct_nontrivial'] += d['distinct_nontrivial']
-        total['failures'] += [f for f in d['failures'] if f.get('prop') in props]
+        total['failures'] += [f for f in d['failures'] if ('prop' not in f) or f.get('prop') in props]
         total['rules'].append(f'[{name}] ' + d['rule'])
         total['extra'][name] = {k: v for k, v in d.items() if k not in ('failures', 'rule', 'evaluations', 'distinct_nontrivial')}
     return total, None
